@@ -192,7 +192,13 @@ package annotation
 //@   ghost put bool = false
 //@   ghostset at "batch.Put(targetTk, val)": put = true
 //@   invariant loop 1: len(targetElems) == n0 + elemsAdded
-//@   invariant loop 1: elemsAdded >= 0 && (elemsAdded > 0 <==> anyDel) && !put
+//@   invariant loop 1: elemsAdded >= 0 && (elemsAdded > 0 <==> anyDel) && !put && skipped == 0
 //@   assert at "elemsAdded += len(elems)": len(elems) > 0
+//@   assert at "batch.Delete(tk)": len(elems) > 0
+//@   ghost skipped int = 0
+//@   ghostset at "batch.Delete(tk)": skipped = 0
+//@   ghostset at "if elems == nil || len(elems) == 0 {": skipped = len(elems)
+//@   assert at "tk := NewLabelTKey(label)": skipped == 0
+//@   assert at "if elemsAdded > 0 {": skipped == 0
 //@   assert at "batch.Put(targetTk, val)": len(targetElems) == n0 + elemsAdded && elemsAdded > 0
 //@   assert at "if err := batch.Commit(); err != nil {": put
